@@ -11,6 +11,7 @@ from tqdm.auto import tqdm
 
 from quantem.core import config
 from quantem.core.io.serialize import load as autoserialize_load
+from quantem.core.utils import _verif_trace as _vt
 from quantem.diffractive_imaging.dataset_models import DatasetModelType
 from quantem.diffractive_imaging.detector_models import DetectorModelType
 from quantem.diffractive_imaging.logger_ptychography import LoggerPtychography
@@ -204,13 +205,24 @@ class Ptychography(PtychographyOpt, PtychographyVisualizations, PtychographyBase
             val_mode=self.val_mode,
         )
         pbar = tqdm(range(num_iters), disable=not self.verbose)
+        if _vt.active():
+            _vt.emit(
+                "create",
+                n=int(self.dset.num_gpts),
+                bs=int(batcher.batch_size),
+                train=[int(i) for i in batcher.train_indices],
+                val=[int(i) for i in batcher.val_indices],
+            )
 
         for a0 in pbar:
             consistency_loss = 0.0
             total_loss = 0.0
             self._reset_iter_constraints()
+            _vt.emit("start")
 
             for batch_indices in batcher:
+                if _vt.active():
+                    _vt.emit("batch", idx=[int(i) for i in batch_indices])
                 self.zero_grad_all()
                 patch_indices, _positions_px, positions_px_fractional, descan_shifts = (
                     self.dset.forward(batch_indices, self.obj_padding_px)
@@ -245,6 +257,7 @@ class Ptychography(PtychographyOpt, PtychographyVisualizations, PtychographyBase
                 total_loss += batch_loss.item()
 
             num_batches = len(batcher)
+            _vt.emit("end", len=int(num_batches))
             total_loss = total_loss / num_batches
             consistency_loss = consistency_loss / num_batches
 
@@ -253,8 +266,11 @@ class Ptychography(PtychographyOpt, PtychographyVisualizations, PtychographyBase
             if batcher.has_validation:
                 val_consistency_loss = 0.0
                 val_batches = 0
+                _vt.emit("vstart")
                 with torch.no_grad():
                     for batch_indices in batcher.iter_val():
+                        if _vt.active():
+                            _vt.emit("vbatch", idx=[int(i) for i in batch_indices])
                         patch_indices, _positions_px, positions_px_fractional, descan_shifts = (
                             self.dset.forward(batch_indices, self.obj_padding_px)
                         )
@@ -269,6 +285,7 @@ class Ptychography(PtychographyOpt, PtychographyVisualizations, PtychographyBase
                         )
                         val_consistency_loss += batch_val_loss.item()
                         val_batches += 1
+                _vt.emit("vend", len=int(batcher.val_len()))
                 if val_batches > 0:
                     val_loss = val_consistency_loss / val_batches
                     self._iter_val_losses.append(val_loss)
